@@ -1,7 +1,7 @@
 #!/bin/sh
 # usage: mutfam.sh <patch.diff> <property> <family> <runs>  -- run one family against a seeded change (scratch worktree)
 set -u
-P="$1"; PROP="$2"; FAM="$3"; N="${4:-2000}"; W=/tmp/verif-mutest-repo
+P="$1"; PROP="$2"; FAM="$3"; N="${4:-2000}"; W="${VERIF_MUT_W:-/tmp/verif-mutest-repo}"
 HEAD=$(git -C /repo rev-parse HEAD)
 [ -d "$W" ] || git -C /repo worktree add -q --detach "$W" "$HEAD" || exit 2
 git -C "$W" checkout -q -- . && git -C "$W" checkout -q --detach "$HEAD" || exit 2
